@@ -22,6 +22,20 @@ sc3):
                 for the first time by 3-4 threads at once (barrier) under yield
                 injection on Env._envgen_format; every thread's result and the
                 format asked again afterwards must equal the model's.
+* signals       'sig' shards (vf/c19_ugen.py): the class "envelope written inside
+                a SynthDef graph function with unit generator outputs in its
+                fields" - synth controls of every rate, array controls (one
+                element or the whole field), outputs of other units, arithmetic
+                on them, placed in levels, times, curves (scalar, per segment,
+                per channel in nested entries, next to names and numbers),
+                release / loop node, offset and in the parameters of every
+                standard constructor.  The format lists must hold the identical
+                signal object at the documented position (a signal among the
+                curves: shape 5 and the signal as curvature); the definition
+                bytes are decoded (vf/scgf.py) and the unit graph is evaluated
+                by an independent interpreter under two assignments of numbers
+                to the parameters, so every EnvGen / IEnvGen input must
+                evaluate to the model encoding under the same assignment.
 """
 
 import copy
@@ -41,7 +55,16 @@ RULE = ("seeded random envelope specifications: 2-12 levels (any sign / positive
         "also compiled into a SynthDef and decoded; constructor calls with random "
         "parameter subsets.  Non-trivial: at least two segments and (wrapped "
         "times or wrapped/mixed curves or a release/loop node); distinct = hash "
-        "of the argument lists")
+        "of the argument lists.  sig shards: the same specifications / constructor "
+        "calls with unit generator outputs (controls of kr / ir / tr / lagged "
+        "rate, array controls element-wise or as a whole field, LFNoise0.kr, "
+        "channels of In.kr, arithmetic on controls; 25% re-use of a signal in "
+        "several positions) placed in 1-5 of the fields levels / times / curves "
+        "/ nodes / offset or in 1-all constructor parameters, built inside a "
+        "SynthDef graph function with EnvGen.kr/ar (Env object or its format "
+        "tuples, signals also in gate / scale / bias / time-scale) and "
+        "IEnvGen.kr; non-trivial: at least one signal and (constructor or two "
+        "segments)")
 ASSUMPTIONS = [
     "vf/model_env.py (EnvGen array layout, server shape numbers 0-8, -99 for "
     "absent nodes) and vf/scgf.py are the trusted base",
@@ -50,6 +73,13 @@ ASSUMPTIONS = [
     "specified with the single precision constant 0.3333333); definition bytes "
     "float32 nearest",
     "levels/curvatures restricted to the documented domain of each shape",
+    "sig shards: the interpreter of decoded unit graphs in vf/c19_ugen.py "
+    "(control units read the parameter table at their special index; "
+    "BinaryOpUGen special 0 + / 1 - / 2 * / 4 /, UnaryOpUGen 0 neg, MulAdd, "
+    "Sum3, Sum4; every other unit is a leaf) is trusted; identity of a signal "
+    "in the definition is decided by equal values under two assignments of "
+    "numbers (defaults and random) within 1e-9, documented constructor "
+    "arithmetic within 1e-5 (constants are float32)",
 ]
 MIN_COUNTERS = {
     'encodings_compared': 300, 'at_values_checked': 3000,
@@ -66,6 +96,30 @@ MIN_COUNTERS = {
     'reuse_defs_decoded': 200,
     'conc_rounds': 300, 'conc_rounds_with_overlapping_builders': 100,
     'conc_cache_rechecks': 300, 'conc_injected_yields': 100,
+    'sig_cases': 1500, 'sig_defs_decoded': 1000, 'sig_defs_agreeing': 800,
+    'sig_envgen_given_format_tuples': 100,
+    'sig_envgen_formats_compared': 1000,
+    'sig_interpolation_formats_compared': 1000,
+    'sig_format_signal_positions': 5000, 'sig_format_signal_curve': 800,
+    'sig_format_signal_level': 800, 'sig_format_signal_time': 800,
+    'sig_format_signal_release-node': 100, 'sig_format_signal_loop-node': 100,
+    'sig_format_signal_offset': 50, 'sig_format_signal_initial-level': 100,
+    'sig_format_derived_positions': 500,
+    'sig_def_signal_inputs_evaluated': 10000,
+    'sig_def_derived_inputs_evaluated': 1000,
+    'sig_def_constant_inputs_evaluated': 20000,
+    'sig_cases_with_curves_nested': 50, 'sig_cases_with_levels_nested': 30,
+    'sig_cases_with_times_nested': 20, 'sig_cases_with_curves_whole': 10,
+    'sig_cases_with_levels_whole': 10,
+    'sig_cases_with_control': 500, 'sig_cases_with_scalar-control': 100,
+    'sig_cases_with_trigger-control': 100, 'sig_cases_with_lagged-control': 100,
+    'sig_cases_with_array-control-element': 100,
+    'sig_cases_with_unit-output': 100,
+    'sig_cases_with_multi-output-channel': 100,
+    'sig_cases_with_arithmetic-on-control': 100,
+    **{'sig_cases_' + c: 20 for c in (
+        'Env', 'triangle', 'sine', 'perc', 'linen', 'cutoff', 'adsr', 'dadsr',
+        'asr', 'step', 'pairs', 'xyc')},
 }
 
 CTORS = ['triangle', 'sine', 'perc', 'linen', 'cutoff', 'adsr', 'dadsr', 'asr',
@@ -102,6 +156,13 @@ def plan(tier, seed):
                        'first_case': f, 'n': n, 'secs': csecs,
                        'nthreads': 3 + p % 2, 'p_yield': 0.25,
                        'hard_timeout': csecs + 120})
+    # envelope fields given as unit generator outputs inside a graph function
+    # (vf/c19_ugen.py)
+    n_sig, sparts = (12000, 4) if tier == 'quick' else (900_000, 4)
+    for p, (f, n) in enumerate(split(n_sig, sparts)):
+        shards.append({'name': f'sig{p}', 'mode': 'nrt', 'kind': 'sig',
+                       'first_case': f, 'n': n, 'secs': secs,
+                       'hard_timeout': secs + 120})
     return shards
 
 
@@ -133,6 +194,9 @@ def run_shard(spec, acc):
     elif kind == 'conc':
         from vf.c19_conc import run_conc
         run_conc(spec, acc)
+    elif kind == 'sig':
+        from vf.c19_ugen import run_sig
+        run_sig(spec, acc)
     elif kind == 'env':
         run_env(spec, acc)
     else:
@@ -369,6 +433,12 @@ def _list_product(name, kw):
         or isinstance(kw.get('sustain_level'), list))
 
 
+def _list_bias(name, kw):
+    """adsr / dadsr with a list-valued (multichannel) bias: "bias : list |
+    float | int - DC offset", i.e. channel c is offset by bias[c]."""
+    return name in ('adsr', 'dadsr') and isinstance(kw.get('bias'), list)
+
+
 def run_ctor(spec, acc):
     from vf import model_env as M, c19_gen as G
     from sc3.synth.envelope import Env
@@ -393,6 +463,9 @@ def run_ctor(spec, acc):
                 acc.count('documented_shape_refused')
                 acc.violation(f'C19/shape-name-refused/{shape}',
                               dict(witness, error=str(e)))
+            elif _list_bias(name, kw):
+                acc.violation(f'C19/constructor-list-bias/{name}',
+                              dict(witness, tb=short_tb(e)))
             elif _list_product(name, kw):
                 acc.violation(f'C19/constructor-list-parameter/{name}',
                               dict(witness, tb=short_tb(e)))
@@ -438,6 +511,8 @@ def run_ctor(spec, acc):
             key = f'C19/constructor-breakpoints/{name}/{diff}'
             if _list_product(name, kw):
                 key = f'C19/constructor-list-parameter/{name}'
+            if _list_bias(name, kw):
+                key = f'C19/constructor-list-bias/{name}'
             acc.violation(key, dict(witness, got=got, expected=want))
             continue
         if acc.want_sample() and name in ('adsr', 'pairs', 'dadsr'):
